@@ -5,6 +5,7 @@ import (
 	"crypto/tls"
 	"fmt"
 	"io"
+	"math"
 	"net"
 	"os"
 	"strconv"
@@ -486,7 +487,7 @@ func (s *Session) sendMessage(msg storage.Message) {
 		}
 	}()
 
-	scanner := bufio.NewScanner(reader)
+	scanner := newLineScanner(reader)
 	for scanner.Scan() {
 		line := scanner.Text()
 		// Lines starting with . must be prefixed with another .
@@ -505,6 +506,14 @@ func (s *Session) sendMessage(msg storage.Message) {
 	s.send(".")
 }
 
+// newLineScanner returns a line scanner for message content.  bufio.Scanner gives up on a line
+// longer than 64 KiB by default, which would cut the message short; message lines may be longer.
+func newLineScanner(r io.Reader) *bufio.Scanner {
+	scanner := bufio.NewScanner(r)
+	scanner.Buffer(make([]byte, 0, bufio.MaxScanTokenSize), math.MaxInt32)
+	return scanner
+}
+
 // Send the headers plus the top N lines to the client
 func (s *Session) sendMessageTop(msg storage.Message, lineCount int) {
 	reader, err := msg.Source()
@@ -519,7 +528,7 @@ func (s *Session) sendMessageTop(msg storage.Message, lineCount int) {
 		}
 	}()
 
-	scanner := bufio.NewScanner(reader)
+	scanner := newLineScanner(reader)
 	inBody := false
 	for scanner.Scan() {
 		line := scanner.Text()
